@@ -352,7 +352,9 @@ def run(prog, R):
                 if wb.key.endswith('::seek'):
                     okw = names == ('position',)
                     why = 'seek copies the target position'
-                elif st.rv.k in ('use', 'cast') and names == ('position', 'line'):
+                elif (st.rv.k in ('use', 'cast') and names == ('position', 'line')) or names == ('position',):
+                    # (a whole `position = Position::new(line, byte)` at the first record counts as the same
+                    # initialisation; what goes into its byte component is UNIT-1's business)
                     # initialisation at the first record: same function also sets the record start
                     sets_start = any(s2.k == 'assign' and s2.place.local == 1 and tuple(p['name'] for p in s2.place.proj if p['k'] == 'field') in (('buf_pos', 'start'), ('buf_pos', 'pos', '0'))
                                      for blk2 in wb.blocks for s2 in blk2.stmts)
